@@ -49,6 +49,9 @@ UNION_DISCRIMINATOR = {('ICMP', 'type', 3), ('ICMP', 'type', 11), ('ICMP', 'type
 KINDS = {1: 'int', 2: 'enum', 3: 'small', 4: 'v4', 5: 'v6', 6: 'hw'}
 
 
+HAMMING_EXEMPT = set()
+
+
 def parse_view(line):
     """'P Class a=1 b=x.. | Class2 ...' -> list of (class, {field: value})"""
     if not line.startswith('P ') and not line.startswith('Q '):
@@ -238,6 +241,19 @@ def run(ctx):
         for g, val in b0.items():
             if g != fld and (a0.get(g) != val or m0.get(g) != val):
                 changes.setdefault((cls, fld), set()).add(g)
+        # fields outside the independent table: a field is some set of wire bits, so going from the old value to the new one may change
+        # at most as many bits of the serialization as differ between the two values (classes whose serialization computes other
+        # octets from the contents - checksums, lengths - are listed in SPEC with those octets marked, and are judged there)
+        if not (cls in SPEC and fld in SPEC[cls][0]) and cls not in HAMMING_EXEMPT and (cls, fld) not in HAMMING_EXEMPT and kind in (1, 3) and got == exp \
+                and ser1.startswith('S ') and ser2.startswith('S ') and re.fullmatch(r'\d+', b0.get(fld, '') or ''):
+            y1 = bytes.fromhex(ser1.split()[2][1:]); y2 = bytes.fromhex(ser2.split()[2][1:])
+            if len(y1) == len(y2):
+                drv = SPEC[cls][1] if cls in SPEC else []
+                hd = sum(bin(p_ ^ q_).count('1') for i_, (p_, q_) in enumerate(zip(y1, y2)) if i_ not in drv)
+                lim = bin(int(b0[fld]) ^ (v & ((1 << bits) - 1))).count('1')
+                if hd > lim:
+                    viol.append((True, '%s.%s: going from %s to %d changes %d bits of the serialization, more than the %d bits in which the two values differ: %s -> %s'
+                                 % (cls, fld, b0[fld], v, hd, lim, y1.hex(), y2.hex()), lines))
         # wire check against the independent table
         if cls in SPEC and fld in SPEC[cls][0] and ser1.startswith('S ') and ser2.startswith('S ') and got == exp and not (cls == 'IP' and fld == 'src_addr' and wire_value(kind, bits, v) == 0):
             off, w = SPEC[cls][0][fld]
